@@ -5,7 +5,7 @@
 import NPModel.Refine.Samples
 import NPModel.Refine.GetItem
 import NPModel.Refine.Take
-import NPModel.Refine.SetItem
+import NPModel.Refine.Slices
 namespace NP.C05
 open NP
 variable {α : Type}
@@ -67,6 +67,30 @@ theorem concat_is_append (ty : List (String × String)) (cs : List (PCol α)) (h
     (hne : cs.flatMap (·.chunks) ≠ []) :
     (NArr.concat ty cs).map PCol.rows = .ok (Spec.concat (cs.map PCol.rows)) :=
   concat_refines ty cs hv hne
+
+/-- **`column[key] = value` is `rows[key] = value`** — the whole of
+    `NestedExtensionArray.__setitem__`, for every validated column in any physical layout (any
+    number of chunks, slices with raw offsets, hidden child lists), EVERY key whose targets are
+    distinct — an integer (negative counts from the end; out of range = IndexError), a slice with
+    any start/stop/step (negative step: values in key order; zero step = ValueError), a boolean
+    mask (wrong length = IndexError), an integer array (`Key.distinct` excludes only repeated
+    targets, the property's domain) — and every value: one row broadcast to all targets or an
+    array of rows.  Too few values = IndexError; a ragged row among the values used = ValueError
+    and nothing is stored; nothing selected = no change; otherwise the values stand at the
+    targets in key order, read back through the column's dtype, and every other row — missing,
+    empty or not — is unchanged.  The proof goes through `np.unique`/argsort, the mask,
+    `cumsum(mask) - 1` broadcast, `if_else` and the validator of the implementation model. -/
+theorem setitem_refines (c : PCol α) (hw : c.WF = true) (ha : c.aligned) (k : Key) (v : SetVal α)
+    (hd : k.distinct c.len) :
+    (NArr.setItem c k v).map PCol.rows = Spec.setItem c.ty c.rows k v :=
+  setItem_refines c hw ha k v hd
+
+/-- non-vacuity: keys of every kind with distinct targets exist for the 4-row sample column -/
+example : (Key.int (-1)).distinct 4 ∧ (Key.slice (some 3) none (some (-2))).distinct 4 ∧
+    (Key.mask [true, false, true, false]).distinct 4 ∧ (Key.ints [2, -4, 1]).distinct 4 := by
+  refine ⟨trivial, trivial, trivial, ?_⟩
+  show ([2, -4, 1].map (normPos 4)).filterMap id |>.Nodup
+  decide
 
 /-- **`column[mask] = value` is `rows[mask] = value`** — `NestedExtensionArray.__setitem__` with a
     boolean-mask key, for every validated column in any physical layout (chunks, slices, hidden
